@@ -7,6 +7,7 @@ package main
 // synctest bubble, hangs through the virtual-clock watchdog.
 
 import (
+	"os"
 	"fmt"
 	"sort"
 	"strings"
@@ -15,6 +16,7 @@ import (
 
 	"github.com/tinode/chat/server/store/types"
 	kit "github.com/tinode/chat/server/zzverifkit"
+	mem "github.com/tinode/chat/server/zzverifmem"
 	"pgregory.net/rapid"
 )
 
@@ -80,6 +82,9 @@ func c14Gen(rt *rapid.T) wProg {
 		default:
 			op = wOp{K: "note", S: s, T: topicFor(s), A: "kp"}
 		}
+		if p.Cfg.Root && p.Sess[s] == 0 && (op.K == "sub" || op.K == "leave") && op.T == "g0" && gPct(rt, 30) {
+			op.Obo = gInt(rt, 2, 3, "obo") // the root session acts for user 1 or 2
+		}
 		op.L = gInt(rt, 0, 3, "yield")
 		return op
 	}
@@ -104,6 +109,22 @@ func c14Gen(rt *rapid.T) wProg {
 			s := gInt(rt, 1, len(p.Sess)-1, "goes")
 			p.Ops = append(p.Ops, wOp{K: "fault", N: gInt(rt, 1, 2, "k"), A: gPick(rt, []string{"TopicDelete", ""}, "m")}, wOp{K: "del", S: 0, T: "g0", A: "topic", F: gPct(rt, 50)},
 				wOp{K: "sub", S: s, T: "g0"}, wOp{K: "disc", S: s}, wOp{K: "tick", N: 5500})
+		case x >= 92 && x < 95:
+			// a participant of a loaded P2P topic deletes the own account while the peer is attached
+			victim := gInt(rt, 0, 1, "p2pvictim")
+			sv, sp := -1, -1
+			for k, u := range p.Sess {
+				if u == victim && sv < 0 {
+					sv = k
+				}
+				if u == 1-victim && sp < 0 {
+					sp = k
+				}
+			}
+			if sv >= 0 && sp >= 0 {
+				p.Ops = append(p.Ops, wOp{K: "sub", S: sv, T: fmt.Sprintf("p%d", 1-victim)}, wOp{K: "sub", S: sp, T: fmt.Sprintf("p%d", victim)},
+					wOp{K: "del", S: sv, A: "user", U: victim, F: gPct(rt, 50)}, wOp{K: "pub", S: sp, T: fmt.Sprintf("p%d", victim)})
+			}
 		case x < 92:
 			// slow consumer: pause one attached session, flood the topic from another one
 			s := gInt(rt, 1, len(p.Sess)-1, "slow")
@@ -303,6 +324,37 @@ func (o *c14Obs) consistency(w *wWorld, when string) *kit.Viol {
 					return kit.V("topic-lists-session-not-vice-versa", "topic %s lists session %d but the session does not list the topic, after %s", name, slot, when)
 				}
 			}
+		}
+	}
+	// a topic which the store no longer holds (its owner's / a participant's account was deleted) is not served
+	snap := mem.A.Snapshot()
+	for name, lt := range live {
+		if os.Getenv("VERIF_TRACE") != "" {
+			fmt.Printf("  C14 live %s loaded=%v status=%#x sessions=%d\n", name, lt.Loaded, lt.Status, len(lt.Sessions))
+		}
+		if !(strings.HasPrefix(name, "p2p") || strings.HasPrefix(name, "grp")) || lt.Status&(topicStatusPaused|topicStatusMarkedDeleted) != 0 {
+			continue
+		}
+		var gone []int
+		if strings.HasPrefix(name, "p2p") {
+			u1, u2, _ := types.ParseP2P(name)
+			for _, u := range []types.Uid{u1, u2} {
+				alive := false
+				for _, ur := range snap.Users {
+					if ur.ID == u && ur.State != types.StateDeleted {
+						alive = true
+					}
+				}
+				if !alive {
+					gone = append(gone, w.userIdx(u))
+				}
+			}
+		}
+		if os.Getenv("VERIF_TRACE") != "" {
+			fmt.Printf("  C14 topic %s loaded=%v status=%#x sessions=%d gone=%v users=%d\n", name, lt.Loaded, lt.Status, len(lt.Sessions), gone, len(snap.Users))
+		}
+		if len(gone) > 0 && len(lt.Sessions) > 0 {
+			return kit.V("topic-of-deleted-account-served", "P2P topic %s is loaded with %d sessions attached although the account of user %v was deleted, after %s", name, len(lt.Sessions), gone, when)
 		}
 	}
 	// online counters
